@@ -22,6 +22,11 @@ pub fn same_out(a: &Out, b: &Out, rel: f64) -> bool {
 }
 
 /// small configuration for a kind with leading period n (used by the exhaustive stages)
+/// the documented default parameters (what `Default::default()` must be equivalent to)
+pub fn cfg_default(kind: Kind) -> Cfg {
+    let dp = kind.default_params();
+    Cfg { kind, p: dp.p[..kind.n_periods()].to_vec(), m: X(dp.m) }
+}
 pub fn cfg_small(kind: Kind, n: usize) -> Cfg {
     let p = match kind.n_periods() {
         0 => vec![],
